@@ -23,12 +23,17 @@ MRegisterTemp(r, u, n) == RegisterTemp(r, u, n) /\ PrintT(ToJson(
     [src |-> St, act |-> [n |-> "RegisterTemp", r |-> r, u |-> u, name |-> n], out |-> 0, dst |-> St']))
 MRegisterProxy(r, n) == RegisterProxy(r, n) /\ PrintT(ToJson(
     [src |-> St, act |-> [n |-> "RegisterProxy", r |-> r, name |-> n], out |-> OutRegisterProxy(r, n), dst |-> St']))
+MLongGrant(r) == LongGrant(r) /\ PrintT(ToJson(
+    [src |-> St, act |-> [n |-> "LongGrant", r |-> r, u |-> LongUrl(r, NLong(r) + 1)], out |-> 0, dst |-> St']))
+MLongTemp(r) == LongTemp(r) /\ PrintT(ToJson(
+    [src |-> St, act |-> [n |-> "LongTemp", r |-> r, u |-> LongUrl(r, NLong(r) + 1)], out |-> 0, dst |-> St']))
 MResolveTemp(q) == ResolveTemp(q) /\ PrintT(ToJson(
     [src |-> St, act |-> [n |-> "Resolve", q |-> q], out |-> OutResolve(q), dst |-> St']))
 MNext == \/ \E r \in Regions : \/ \E w \in 1..7 : MSeedReq(r, w)
                                \/ \E i \in 1..10 : MSeedResp(r, i)
                                \/ \E u \in TempUrls(r) : \E n \in TempNames : MRegisterTemp(r, u, n)
                                \/ \E n \in PONameSet : MRegisterProxy(r, n)
+                               \/ MLongGrant(r) \/ MLongTemp(r)
          \/ \E q \in TempReqs : MResolveTemp(q)
          \/ MObs
 MSpec == MInit /\ [][MNext]_vars
